@@ -648,4 +648,210 @@ theorem strip_decomp (q : α → Bool) (l : List α) (h : ∃ x ∈ l, q x = fal
 
 end strip
 
+/-! ### rleStrip -/
+
+/-- the loop condition of `rle_strip`: the run carries no data (zero value or zero count) -/
+def rleNotData (r : Int × Nat) : Bool := !(r.1 != 0 && decide (r.2 > 0))
+
+theorem rleNotData_false (r : Int × Nat) (h : rleNotData r = false) : r.1 ≠ 0 ∧ 0 < r.2 := by
+  simpa [rleNotData] using h
+
+theorem notData_dense (l : List (Int × Nat)) (h : ∀ r ∈ l, rleNotData r = true) :
+    rleToDense l = List.replicate ((l.map (·.2)).sum) 0 := by
+  induction l with
+  | nil => rfl
+  | cons r t ih =>
+    have hr := h r List.mem_cons_self
+    have ht := ih (fun x hx => h x (List.mem_cons_of_mem _ hx))
+    rw [rleToDense_cons', ht, List.map_cons, List.sum_cons, ← List.replicate_append_replicate]
+    congr 1
+    simp only [rleNotData, gt_iff_lt, Bool.not_and, Bool.or_eq_true, Bool.not_eq_eq_eq_not,
+      Bool.not_true, bne_eq_false_iff_eq, decide_eq_false_iff_not, Nat.not_lt,
+      Nat.le_zero_eq] at hr
+    rcases hr with hr | hr
+    · rw [hr]
+    · rw [hr]; rfl
+
+theorem rleStrip_spec (rs : List (Int × Nat)) (h : ∃ v ∈ rleToDense rs, v ≠ 0) :
+    List.replicate (rleStrip rs).2.1 0 ++ rleToDense (rleStrip rs).1 ++
+        List.replicate (rleStrip rs).2.2 0 = rleToDense rs ∧
+      (rleToDense (rleStrip rs).1).head? ≠ some 0 ∧
+      (rleToDense (rleStrip rs).1).getLast? ≠ some 0 := by
+  have hex : ∃ x ∈ rs, rleNotData x = false := by
+    apply Classical.byContradiction
+    intro hno
+    have hall : ∀ r ∈ rs, rleNotData r = true := by
+      intro r hr
+      cases hq : rleNotData r
+      · exact absurd ⟨r, hr, hq⟩ hno
+      · rfl
+    obtain ⟨v, hv, hv0⟩ := h
+    rw [notData_dense rs hall] at hv
+    exact hv0 (List.eq_of_mem_replicate hv)
+  obtain ⟨a, b, core, hcore, hl, ⟨ta, hta⟩, hqa, ⟨tb, htb⟩, hqb⟩ := strip_decomp rleNotData rs hex
+  have hstrip : rleStrip rs = (core, ((rs.takeWhile rleNotData).map (·.2)).sum,
+      ((rs.reverse.takeWhile rleNotData).map (·.2)).sum) := by
+    rw [← hcore]; rfl
+  rw [hstrip]
+  dsimp only
+  refine ⟨?_, ?_, ?_⟩
+  · conv => rhs; rw [hl]
+    rw [rleToDense_append, rleToDense_append,
+      notData_dense _ (mem_takeWhile_true rleNotData rs),
+      notData_dense (rs.reverse.takeWhile rleNotData).reverse
+        (fun r hr => mem_takeWhile_true rleNotData rs.reverse r (List.mem_reverse.1 hr)),
+      List.map_reverse, List.sum_reverse_nat]
+  · obtain ⟨v, c⟩ := a
+    obtain ⟨hv, hc⟩ := rleNotData_false _ hqa
+    rw [hta, rleToDense_head v c ta hc]
+    intro hh
+    exact hv (Option.some.inj hh)
+  · obtain ⟨v, c⟩ := b
+    obtain ⟨hv, hc⟩ := rleNotData_false _ hqb
+    rw [htb, rleToDense_getLast v c tb hc]
+    intro hh
+    exact hv (Option.some.inj hh)
+
+/-! ### brleStrip -/
+
+/-- the loop condition of `brle_strip` on (position, count): not a non-empty True run -/
+def brleNotData (r : Nat × Nat) : Bool := !(r.1 % 2 == 1 && decide (r.2 > 0))
+
+theorem brleNotData_false (r : Nat × Nat) (h : brleNotData r = false) :
+    par r.1 = true ∧ 0 < r.2 := by
+  simpa [brleNotData, par] using h
+
+/-- dense form of a list of (position, count) runs, value = position odd -/
+def tagDense (l : List (Nat × Nat)) : List Bool :=
+  rleToDense (l.map (fun r => (par r.1, r.2)))
+
+theorem tagDense_append (a b : List (Nat × Nat)) :
+    tagDense (a ++ b) = tagDense a ++ tagDense b := by
+  simp [tagDense, rleToDense_append]
+
+theorem tagDense_notData (l : List (Nat × Nat)) (h : ∀ r ∈ l, brleNotData r = true) :
+    tagDense l = List.replicate ((l.map (·.2)).sum) false := by
+  induction l with
+  | nil => rfl
+  | cons r t ih =>
+    have hr := h r List.mem_cons_self
+    have ht := ih (fun x hx => h x (List.mem_cons_of_mem _ hx))
+    unfold tagDense at ht ⊢
+    rw [List.map_cons, rleToDense_cons, ht, List.map_cons, List.sum_cons,
+      ← List.replicate_append_replicate]
+    congr 1
+    simp only [brleNotData, par_def, gt_iff_lt, Bool.not_and, Bool.or_eq_true,
+      Bool.not_eq_eq_eq_not, Bool.not_true, decide_eq_false_iff_not, Nat.not_lt,
+      Nat.le_zero_eq] at hr
+    rcases hr with hr | hr
+    · rw [hr]
+    · rw [hr]; rfl
+
+theorem tagDense_consec (l : List (Nat × Nat)) (s : Nat)
+    (h : l.map (·.1) = List.range' s l.length) :
+    tagDense l = brleToDenseFrom (par s) (l.map (·.2)) := by
+  induction l generalizing s with
+  | nil => rfl
+  | cons r t ih =>
+    obtain ⟨p, c⟩ := r
+    simp only [List.map_cons, List.length_cons, List.range'_succ, List.cons.injEq] at h
+    obtain ⟨hp, ht⟩ := h
+    subst hp
+    have := ih (p + 1) ht
+    unfold tagDense at this ⊢
+    simp only [List.map_cons, rleToDense_cons, brleFrom_cons, this, par_succ]
+
+theorem range'_eq_append (x y : List Nat) (s n : Nat) (h : List.range' s n = x ++ y) :
+    x = List.range' s x.length ∧ y = List.range' (s + x.length) y.length := by
+  induction x generalizing s n with
+  | nil =>
+    simp only [List.nil_append] at h
+    subst h
+    simp
+  | cons a t ih =>
+    cases n with
+    | zero => simp at h
+    | succ n =>
+      rw [List.range'_succ, List.cons_append, List.cons.injEq] at h
+      obtain ⟨ha, ht⟩ := h
+      subst ha
+      obtain ⟨h1, h2⟩ := ih (s + 1) n ht
+      refine ⟨?_, ?_⟩
+      · rw [List.length_cons, List.range'_succ, ← h1]
+      · rw [List.length_cons, show s + (t.length + 1) = s + 1 + t.length by omega]
+        exact h2
+
+theorem brleStrip_spec (ls : List Nat) (h : true ∈ brleToDense ls) :
+    List.replicate (brleStrip ls).2.1 false ++ brleToDense (brleStrip ls).1 ++
+        List.replicate (brleStrip ls).2.2 false = brleToDense ls ∧
+      (brleToDense (brleStrip ls).1).head? = some true ∧
+      (brleToDense (brleStrip ls).1).getLast? = some true := by
+  generalize htag : (List.range ls.length).zip ls = tagged
+  have hfst : tagged.map (·.1) = List.range' 0 ls.length := by
+    rw [← htag, ← List.range_eq_range']
+    exact List.map_fst_zip (by simp)
+  have hsnd : tagged.map (·.2) = ls := by
+    rw [← htag]
+    exact List.map_snd_zip (by simp)
+  have hlen : tagged.length = ls.length := by
+    rw [← htag]; simp
+  have hdense : brleToDense ls = tagDense tagged := by
+    rw [tagDense_consec tagged 0 (by rw [hfst, hlen]), hsnd]; rfl
+  have hex : ∃ x ∈ tagged, brleNotData x = false := by
+    apply Classical.byContradiction
+    intro hno
+    have hall : ∀ r ∈ tagged, brleNotData r = true := by
+      intro r hr
+      cases hq : brleNotData r
+      · exact absurd ⟨r, hr, hq⟩ hno
+      · rfl
+    rw [hdense, tagDense_notData tagged hall] at h
+    exact absurd (List.eq_of_mem_replicate h) (by decide)
+  obtain ⟨a, b, core, hcore, hl, ⟨ta, hta⟩, hqa, ⟨tb, htb⟩, hqb⟩ :=
+    strip_decomp brleNotData tagged hex
+  have hstrip : brleStrip ls = (0 :: core.map (·.2),
+      ((tagged.takeWhile brleNotData).map (·.2)).sum,
+      ((tagged.reverse.takeWhile brleNotData).map (·.2)).sum) := by
+    rw [← hcore, List.map_drop, List.map_take, hsnd, hlen, ← htag]; rfl
+  -- positions inside the core are consecutive and start at an odd position
+  have hfst' : List.range' 0 ls.length =
+      ((tagged.takeWhile brleNotData).map (·.1) ++ core.map (·.1)) ++
+        ((tagged.reverse.takeWhile brleNotData).reverse).map (·.1) := by
+    rw [← hfst]
+    conv => lhs; rw [hl]
+    simp only [List.map_append]
+  have h1 := (range'_eq_append _ _ _ _ hfst').1
+  have h2 := (range'_eq_append _ _ _ _ h1.symm).2
+  simp only [List.length_map, Nat.zero_add] at h2
+  have hcoreDense : tagDense core = brleToDenseFrom true (core.map (·.2)) := by
+    rw [tagDense_consec core _ h2]
+    congr 1
+    obtain ⟨p, c⟩ := a
+    have hp := (brleNotData_false _ hqa).1
+    rw [hta, List.map_cons, List.length_cons, List.range'_succ, List.cons.injEq] at h2
+    rw [← h2.1]
+    exact hp
+  have hbd : brleToDense (0 :: core.map (·.2)) = tagDense core := by
+    rw [hcoreDense]; simp [brleToDense]
+  rw [hstrip]
+  dsimp only
+  rw [hbd]
+  refine ⟨?_, ?_, ?_⟩
+  · rw [hdense]
+    conv => rhs; rw [hl]
+    rw [tagDense_append, tagDense_append,
+      tagDense_notData _ (mem_takeWhile_true brleNotData tagged),
+      tagDense_notData (tagged.reverse.takeWhile brleNotData).reverse
+        (fun r hr => mem_takeWhile_true brleNotData tagged.reverse r (List.mem_reverse.1 hr)),
+      List.map_reverse, List.sum_reverse_nat]
+  · obtain ⟨p, c⟩ := a
+    obtain ⟨hp, hc⟩ := brleNotData_false _ hqa
+    rw [hta, tagDense, List.map_cons, rleToDense_head _ c _ hc]
+    exact congrArg some hp
+  · obtain ⟨p, c⟩ := b
+    obtain ⟨hp, hc⟩ := brleNotData_false _ hqb
+    rw [htb, tagDense, List.map_append, List.map_cons, List.map_nil,
+      rleToDense_getLast _ c _ hc]
+    exact congrArg some hp
+
 end TV.RunLength
